@@ -30,7 +30,7 @@ func TestMain(m *testing.M) {
 	debug.SetGCPercent(400) // math/big garbage dominates; memory use stays small
 	h.Observe("build", buildTag)
 	h.Observe("GODEBUG", os.Getenv("GODEBUG"))
-	h.Main(m, ref.SelfTestSM3, ref.SelfTestSM2, selfTestDER, selfTestModel)
+	h.Main(m, ref.SelfTestSM3, ref.SelfTestSM2, selfTestDER, selfTestModel, selfTestLegacyModel)
 }
 
 var (
@@ -371,6 +371,7 @@ func refParse(sig []byte) (r, s *big.Int, err error) {
 // base is a signature the reference model made (or crafted) together with
 // everything needed to present it to the library.
 type base struct {
+	G       *gcurve  // nil: the SM2 curve
 	D       *big.Int // nil if the private key is unknown
 	Pub     ref.Point
 	UIDLen  int
@@ -383,6 +384,41 @@ type base struct {
 }
 
 func (b *base) msgMode() bool { return b.Digest == nil }
+
+// parameters of the curve the base lives on
+func (b *base) n() *big.Int {
+	if b.G != nil {
+		return b.G.c.N
+	}
+	return bigN
+}
+
+func (b *base) p() *big.Int {
+	if b.G != nil {
+		return b.G.c.P
+	}
+	return bigP
+}
+
+func (b *base) width() int {
+	if b.G != nil {
+		return b.G.byteLen
+	}
+	return 32
+}
+
+// two is 2^(8*width): the first value that does not fit a fixed-width field.
+func (b *base) two() *big.Int { return new(big.Int).Lsh(one, uint(8*b.width())) }
+
+func (b *base) fixed(v *big.Int) []byte { return v.FillBytes(make([]byte, b.width())) }
+
+// nonce returns a value in [1, n-1] of the base's curve.
+func (b *base) nonce(seed uint64) *big.Int {
+	if b.G == nil {
+		return nonceFromSeed(seed)
+	}
+	return b.G.nonce(seed)
+}
 
 // honestBase signs (uid, msg) with d and the nonce derived from kSeed, with the
 // reference implementation of GB/T 32918.2 6.1.
